@@ -9,7 +9,7 @@
 //!   qfn  <name> <v>...   the same call, but spelled as an XPath expression and run through
 //!                        `xml_xpath::query` (covers literal parsing, `eval_func_expr`, the arity test)
 //!   op   <o> <v> <v>     o in eq ne lt le gt ge add sub mul div mod, through `query`
-//!   op   neg <v>         unary minus, through `query`
+//!   op   neg <v>         unary minus, through `query` (neg2 / neg3: two / three minus signs)
 //!   lit  <s:...>         a number literal (the characters given), through `query`
 //!   arity <name> <n>     `name(1,...,1)` with n arguments through `query`: `ok` unless the answer
 //!                        is InvalidArgumentCount / NotFoundFunction
@@ -202,9 +202,14 @@ pub fn case(line: &str) -> String {
             }
         }
         "op" => {
-            if name == "neg" {
+            if name == "neg" || name == "neg2" || name == "neg3" {
+                let signs = match name {
+                    "neg" => "-",
+                    "neg2" => "- -",
+                    _ => "---",
+                };
                 match words.get(2).and_then(|w| parse_value(w)) {
-                    Some(v) => run_query(&format!("-{}", value_expr(&v))),
+                    Some(v) => run_query(&format!("{}{}", signs, value_expr(&v))),
                     None => "err:case".to_string(),
                 }
             } else {
